@@ -14,7 +14,7 @@ PROP = {
     "streams": [
         {"name": "fmt", "driver": "drv_fmt",
          "quick": {"n": 2500}, "thorough": {"n": 30000, "seeds": 4}},
-        {"name": "attach", "driver": "drv_attach",
+        {"name": "cattach", "driver": "drv_cattach",
          "quick": {"n": 1500}, "thorough": {"n": 20000, "seeds": 4}},
     ],
     "exhaustive": False,
@@ -26,7 +26,7 @@ PROP = {
                   "(as functions on lines) only delete or empty white-space-only lines; postpass_comments_partial - text without "
                   "white-space-only lines passes unchanged; collapse_comment_witness - the recorded defect on the port; "
                   "comments_once_partial - on a model of trivia.Attach / attachLevel (the four loops, recursion into children, "
-                  "header / footer rules; tied by CC stream `attach`: model assignments = CommentMap of the real attachLevel "
+                  "header / footer rules; tied by CC stream `cattach`: model assignments = CommentMap of the real attachLevel "
                   "through a verif hook, and every group in exactly one slot of Go's map) the slot assignments carry every "
                   "comment group exactly once, in order, for all element forests and group lists. NOT modelled: comment scanning, the "
                   "hoist post-passes of Attach, the Go maps' overwrite semantics, rendering of the slots, "
@@ -38,13 +38,13 @@ PROP = {
                   "compared byte for byte with the Go functions (verif hook) on generated inputs.",
     "level_note": "Trusted: Lean kernel; the model of turbolent/prettier (Flatten, fits, best, layout; strict instead of lazy, "
                   "text width in characters instead of bytes) - modelled, not tied by a stream of its own (it is exercised only "
-                  "through Format); the model Verif.Model.Front.Attach of trivia.attachLevel (validated by stream attach); the ports of the two post-passes (validated by stream fmt); harness and driver. bytes.TrimSpace "
+                  "through Format); the model Verif.Model.Front.Attach of trivia.attachLevel (validated by stream cattach); the ports of the two post-passes (validated by stream fmt); harness and driver. bytes.TrimSpace "
                   "is modelled for ASCII white space only. Idempotence is CC only.",
     "assumptions": ["indent string consists of white space (Options.Validate enforces \" \" or \"\\t\")",
                     "bytes.TrimSpace restricted to ASCII white space (generated inputs are ASCII there)"],
     "trusted_base": ["model Verif.Model.Front.Layout of github.com/turbolent/prettier (external library, modelled)",
                      "ports Verif.Model.Front.Trivia validated by stream fmt (verif hook formatter/verif_hooks.go)",
-                     "model Verif.Model.Front.Attach validated by stream attach (verif hook formatter/trivia/verif_hooks.go)",
-                     "Go harness cmd/vharness/stream_fmt.go, stream_attach.go, c38_gen.go, stream_pp.go (AST JSON comparison)",
+                     "model Verif.Model.Front.Attach validated by stream cattach (verif hook formatter/trivia/verif_hooks.go)",
+                     "Go harness cmd/vharness/stream_fmt.go, stream_cattach.go, c38_gen.go, stream_pp.go (AST JSON comparison)",
                      "drivers Drv/Fmt.lean, Drv/Attach.lean"],
 }
